@@ -283,13 +283,66 @@ func (c *FnCtx) callModifies(call *ssa.CallCommon, in *ssa.Function, add func(pr
 			continue
 		}
 		if strings.HasPrefix(m, "elems(") || strings.HasPrefix(m, "mapof(") {
-			add("*", "")
+			inner := m[6 : len(m)-1]
+			t := c.staticPathType(fc, fn, call, inner)
+			switch {
+			case t == nil:
+				add("*", "")
+			case strings.HasPrefix(m, "elems(") && elemTypeOf(t) != nil:
+				add(elemKey(elemTypeOf(t)), "")
+			case strings.HasPrefix(m, "mapof("):
+				if mt, ok := t.Underlying().(*types.Map); ok {
+					add(typeKey(mt), "")
+				} else {
+					add("*", "")
+				}
+			default:
+				add("*", "")
+			}
 			continue
 		}
 		for _, pre := range c.widenLoc(fc, fn, call, m) {
 			add(pre, "")
 		}
 	}
+}
+
+// staticPathType: static type of a dotted path rooted at a callee parameter (nil if it cannot be resolved).
+func (c *FnCtx) staticPathType(fc *FuncContract, fn *ssa.Function, call *ssa.CallCommon, path string) types.Type {
+	segs := strings.Split(strings.TrimSpace(path), ".")
+	var t types.Type
+	if fn != nil {
+		for _, prm := range fn.Params {
+			if prm.Name() == segs[0] {
+				t = prm.Type()
+			}
+		}
+		for _, fv := range fn.FreeVars {
+			if fv.Name() == segs[0] {
+				t = fv.Type().Underlying().(*types.Pointer).Elem()
+			}
+		}
+	}
+	if t == nil {
+		return nil
+	}
+	for _, sname := range segs[1:] {
+		st := structOf(derefType(t))
+		if st == nil {
+			return nil
+		}
+		found := false
+		for k := 0; k < st.NumFields(); k++ {
+			if st.Field(k).Name() == sname {
+				t = st.Field(k).Type()
+				found = true
+			}
+		}
+		if !found {
+			return nil
+		}
+	}
+	return t
 }
 
 // widenLoc: type-level heap prefixes covering a callee's modifies entry (used for loop havoc).
